@@ -131,19 +131,10 @@ def fmtServe (x : Option Call × Outcome) : String :=
   | (some c, o) => fmtCall c ++ " => " ++ fmtOutcome o
   | (none, o) => "nocall => " ++ fmtOutcome o
 
-/-- An informational status (1xx except 101) passed to `WriteHeader` is not the final status in net/http; the recorder
-model treats every `WriteHeader` as final, so handlers whose script does that are outside the modelled domain. -/
-def informational (c : Nat) : Bool := 100 ≤ c ∧ c ≤ 199 ∧ c ≠ 101
-
-def fmtServeS (scripts : Scripts) (x : Option Call × Outcome) : String :=
-  match x with
-  | (some c, _) =>
-    match c.handler.base with
-    | .user hid =>
-      if (scripts.get hid).any (fun a => match a with | .writeHeader code => informational code | _ => false)
-      then "unsupported" else fmtServe x
-    | _ => fmtServe x
-  | _ => fmtServe x
+/-- Formats the answer to a served request.  Handlers whose script sends an informational status (1xx except 101) are
+in the modelled domain (`Mux.informational`, `Rec.writeHeader`, `runHead`), so they are formatted like any other; the
+scripts are no longer consulted. -/
+def fmtServeS (_scripts : Scripts) (x : Option Call × Outcome) : String := fmtServe x
 
 def fmtErr (e : Err) : String :=
   match e with
@@ -524,6 +515,10 @@ def step (st : St) (line : String) : St × String :=
     let (r, body) := traceHelper d {}
     (st, s!"trace {fmtRec r} text={encB body}")
   -- unit level (hooks guarded by the build tag `verif` export the internal functions)
+  | ["u-render", mask] =>
+    match mask.toNat? with
+    | some m => (st, "render " ++ encMethods (renderMethods m) ++ " " ++ encB (allowHeader m))
+    | none => (st, "bad-op")
   | ["u-split", str] => (st, "split " ++ encL (splitString (decB str)))
   | ["u-lp", a, b] => (st, s!"lp {longestPrefix (decB a) (decB b)}")
   | ["u-seg", icpt, val] =>
